@@ -519,6 +519,30 @@ func trsbUse(file string) (whole, entries []string, err error) {
 	return whole, entries, nil
 }
 
+// trsbTypeShape lists the fields of a replacement type as Coq tuples (name, embedded, exported, type).
+func trsbTypeShape(t ast.Expr) []string {
+	st, ok := t.(*ast.StructType)
+	if !ok {
+		return []string{fmt.Sprintf("(%s, true, true, %s)", coqStr(""), coqStr(trsbPrint(t)))}
+	}
+	var out []string
+	for _, f := range st.Fields.List {
+		typ := trsbPrint(f.Type)
+		if len(f.Names) == 0 {
+			name := strings.TrimPrefix(typ, "*")
+			if i := strings.LastIndex(name, "."); i >= 0 {
+				name = name[i+1:]
+			}
+			out = append(out, fmt.Sprintf("(%s, true, %s, %s)", coqStr(name), coqBool(ast.IsExported(name)), coqStr(typ)))
+			continue
+		}
+		for _, n := range f.Names {
+			out = append(out, fmt.Sprintf("(%s, false, %s, %s)", coqStr(n.Name), coqBool(ast.IsExported(n.Name)), coqStr(typ)))
+		}
+	}
+	return out
+}
+
 func trSandbox(args []string) error {
 	fs := flag.NewFlagSet("tr-sandbox", flag.ExitOnError)
 	repo := fs.String("repo", "/repo", "repository root")
@@ -625,7 +649,7 @@ func trSandbox(args []string) error {
 	if err != nil {
 		return err
 	}
-	var defs []string
+	var defs, rtypes []string
 	for _, d := range rf.Decls {
 		switch x := d.(type) {
 		case *ast.FuncDecl:
@@ -646,11 +670,15 @@ func trSandbox(args []string) error {
 			for _, sp := range x.Specs {
 				if ts, ok := sp.(*ast.TypeSpec); ok {
 					defs = append(defs, fmt.Sprintf("(%s, %s, %s)", coqStr("type "+ts.Name.Name), coqStr(trsbPrint(ts.Type)), "[]"))
+					rtypes = append(rtypes, fmt.Sprintf("(%s, %s)", coqStr(ts.Name.Name), coqList(trsbTypeShape(ts.Type))))
 				}
 			}
 		}
 	}
 	fmt.Fprintf(&b, "Definition sb_restricted_defs : list (str * str * list str) :=\n  [%s].\n", strings.Join(defs, ";\n   "))
+	// shape of the replacement types: field name, embedded, exported, type (a type that is not a struct counts as one
+	// embedded exported field of its underlying type: it converts to it)
+	fmt.Fprintf(&b, "Definition sb_restricted_types : list (str * list (str * bool * bool * str)) :=\n  [%s].\n", strings.Join(rtypes, ";\n   "))
 
 	// ---- fixStdlib
 	fix, err := trsbFixStdlib(filepath.Join(*repo, "interp", "use.go"))
